@@ -683,7 +683,8 @@ def check_buffer_access(chk, funcs, mods):
                     pref = [data_prefix(a) for a in args if data_prefix(a)][0]
                     lidx = {'SHA1': 1, 'fwrite': None}.get(cn, 2)
                     if cn == 'fwrite':
-                        L = len_text(args[2], tu) if astdb.const_int(args[1], tu) == 1 else '?'
+                        # size * count bytes: fwrite(p, 1, n, f) and fwrite(p, n, 1, f) read the same n bytes
+                        L = len_text(args[2], tu) if astdb.const_int(args[1], tu) == 1 else (len_text(args[1], tu) if astdb.const_int(args[2], tu) == 1 else '?')
                     else:
                         L = len_text(args[lidx], tu)
                     need = [(L, pref)]
@@ -1834,6 +1835,18 @@ def run(chk):
     chk.require(n_is >= 5, 'only %d index-space subtractions found (expected >= 5): anchor drifted' % n_is)
     chk.require(n_ns >= 5, 'only %d subscripts of a WasmNames table found (expected >= 5): anchor drifted' % n_ns)
     n_ee = check_exact_end(chk)
+    # R10.14: the translator does not stop (abort / failed assertion) on a valid module: the data-segment blob writer evaluated on modules
+    # with empty and non-empty segments with fwrite's return-value semantics (decision shared with C06 R06.3)
+    from . import c06
+    from .. import emit as _emit
+    tus6 = _emit.translator_tus(('c.c', 'opcode.c', 'instruction.c'), chk=chk)
+    it6 = c06.make(tus6)
+    modes6 = dict(tus6[0].enum_decls.get('WasmDataSegmentMode', []))
+    chk.require('wasmDataSegmentModeGNULD' in modes6, 'enum WasmDataSegmentMode not found')
+    bad6 = c06.concrete_blob_writer(it6, modes6['wasmDataSegmentModeGNULD'])
+    chk.expect(bad6 is None, 'R10.14', 'blob-writer-valid-modules', 'the data-segment blob writer: %s' % bad6, 'wasmCWriteDataSegmentsFromSection:blob',
+               detail_ok='modules with empty and non-empty segments are written completely, without abort')
+    chk.floor('R10.14', 1)
     chk.extra['sites'] = dict(sprintf=n_fmt, copies=n_cp, raw_buffer=n_buf, nullable_sinks=n_null,
                               tainted_locations=sorted(map(str, nf.tainted)), seed_evidence={str(k): v[:3] for k, v in just.items()})
     chk.floor('R10.1', 10)
